@@ -2,7 +2,7 @@
    kind = property*100 + sub-model.  [run] = what the model says the implementation must
    output on this input; [mon] = the property's monitor applied to the implementation's own
    observed output. *)
-From RainV Require Import Lib Tier Geometry SectionIO Meta Paths Wire Stree AddrList Cache Tracker Announcer Picker.
+From RainV Require Import Lib Tier Geometry SectionIO Meta Paths Wire Stree AddrList Cache Tracker Announcer Picker Ram.
 
 Definition run (kind : Z) (inp : list Z) : list Z :=
   match kind with
@@ -29,6 +29,7 @@ Definition run (kind : Z) (inp : list Z) : list Z :=
   | 1601 => run_tier true inp
   | 1602 => run_udp_parse inp
   | 1603 => run_http_parse inp
+  | 1701 => run_ram inp
   | 1801 => run_blocklist inp
   | 1802 => run_stree inp
   | 1803 => run_addrlist inp
@@ -59,6 +60,7 @@ Definition mon (kind : Z) (inp obs : list Z) : bool :=
   | 1601 => mon_tier inp obs
   | 1602 => mon_udp_parse inp obs
   | 1603 => mon_http_parse inp obs
+  | 1701 => mon_ram inp obs
   | 1801 => mon_blocklist inp obs
   | 1802 => mon_stree inp obs
   | 1803 => mon_addrlist inp obs
